@@ -233,6 +233,80 @@ pub fn judge_list(c: &ListCase, rec: &mut Rec) -> Verdict {
     Verdict::Pass
 }
 
+/// decode libFuzzer bytes exactly like harness/fuzz/fuzz_targets/merge.rs does
+pub fn decode_fuzz(data: &[u8]) -> ListCase {
+    fn varint(data: &[u8], pos: &mut usize) -> Option<u64> {
+        let c = *data.get(*pos)?;
+        *pos += 1;
+        let n = (c & 3) as usize;
+        let mut v = (c >> 2) as u64;
+        for _ in 0..n {
+            let b = *data.get(*pos)?;
+            *pos += 1;
+            v = (v << 8) | b as u64;
+        }
+        Some(v)
+    }
+    let mut pos = 0;
+    let mut items = vec![];
+    while items.len() < 64 {
+        let gap = match varint(data, &mut pos) { Some(v) => v, None => break };
+        let len = match varint(data, &mut pos) { Some(v) => v + 1, None => break };
+        items.push((gap, len));
+    }
+    ListCase { items, base: 0 }
+}
+
+/// (c) coverage-guided campaign (thorough tier): libFuzzer with the merge laws inside the target
+fn fuzz_campaign(ctx: &Ctx, rec: &mut Rec) {
+    let corpus = format!("/verif/.build/fuzz-corpus-{}", std::process::id());
+    let artifacts = format!("/verif/.build/fuzz-artifacts-{}/", std::process::id());
+    let _ = std::fs::create_dir_all(&corpus);
+    let _ = std::fs::create_dir_all(&artifacts);
+    // a few seeds: empty, touching pair, 1-gap pair
+    let _ = std::fs::write(format!("{}/seed0", corpus), b"");
+    let _ = std::fs::write(format!("{}/seed1", corpus), [0u8, 4, 0, 4]);
+    let _ = std::fs::write(format!("{}/seed2", corpus), [0u8, 4, 4, 4, 8, 0]);
+    let runs = 2_000_000u64;
+    let seed = (ctx.seed % 1_000_000) + 1; // 0 would mean "random" to libFuzzer
+    let out = std::process::Command::new(crate::run::cargo_bin())
+        .current_dir("/verif/harness")
+        .env("CARGO_NET_OFFLINE", "true")
+        .env("RUST_BACKTRACE", "0")
+        .args(["+nightly", "fuzz", "run", "--target-dir", "/verif/.build/fuzz", "merge", &corpus, "--", &format!("-runs={}", runs), &format!("-seed={}", seed), "-max_len=256", "-len_control=0", &format!("-artifact_prefix={}", artifacts)])
+        .output();
+    match out {
+        Err(e) => rec.inconclusive.push(format!("cargo fuzz could not be started: {e}")),
+        Ok(o) => {
+            let text = String::from_utf8_lossy(&o.stderr).to_string();
+            if o.status.success() {
+                rec.eval(runs);
+                rec.count("libfuzzer_runs", runs as i64);
+                rec.class("libfuzzer|completed");
+            } else if text.contains("C19 merge law violated") || text.contains("merge_extents failed") {
+                // turn the crashing input into a replayable case
+                let crash = std::fs::read_dir(&artifacts).ok().and_then(|rd| rd.flatten().map(|e| e.path()).find(|p| p.file_name().map(|n| n.to_string_lossy().starts_with("crash-")).unwrap_or(false)));
+                let bytes = crash.as_ref().and_then(|p| std::fs::read(p).ok()).unwrap_or_default();
+                let lc = decode_fuzz(&bytes);
+                match judge_list(&lc, &mut Rec::default()) {
+                    Verdict::Fail(sig, reason, details) => {
+                        if let Some(k) = ctx.is_known(&sig) {
+                            *rec.known_hits.entry(format!("{}: {}", k.signature, k.what)).or_insert(0) += 1;
+                        } else {
+                            rec.failures.push(Failure { property: "C19".into(), sub: "fuzz".into(), signature: sig, reason: format!("libFuzzer: {}", reason), case: serde_json::to_value(&lc).unwrap(), details });
+                        }
+                    }
+                    _ => rec.inconclusive.push(format!("libFuzzer crashed but the input does not reproduce through the probe: {}", text.lines().filter(|l| l.contains("panicked") || l.contains("C19")).take(3).collect::<Vec<_>>().join(" | "))),
+                }
+            } else {
+                rec.inconclusive.push(format!("cargo fuzz failed (build or infrastructure): {}", text.lines().rev().take(5).collect::<Vec<_>>().join(" | ")));
+            }
+        }
+    }
+    let _ = std::fs::remove_dir_all(&corpus);
+    let _ = std::fs::remove_dir_all(&artifacts);
+}
+
 impl Check for C19 {
     fn id(&self) -> &'static str {
         "C19"
@@ -250,6 +324,9 @@ impl Check for C19 {
         };
         prop_loop(ctx, rec, "file", file_strategy(), ctx.share(nf), judge_file);
         prop_loop(ctx, rec, "list", list_strategy(), ctx.share(nl), judge_list);
+        if ctx.tier == Tier::Thorough && ctx.shard == 1 % ctx.nshards {
+            fuzz_campaign(ctx, rec);
+        }
         if ctx.shard == 0 {
             // exhaustive enumeration inside the probe (one process)
             if let Ok(sb) = Sandbox::new() {
@@ -294,7 +371,7 @@ impl Check for C19 {
         }
     }
     fn replay(&self, _ctx: &Ctx, sub: &str, case: &Value) -> Verdict {
-        if sub == "list" {
+        if sub == "list" || sub == "fuzz" {
             match serde_json::from_value::<ListCase>(case.clone()) {
                 Ok(c) => judge_list(&c, &mut Rec::default()),
                 Err(e) => Verdict::Inconclusive(format!("bad case: {e}")),
